@@ -331,6 +331,26 @@ def r04_4(rep, M, rid):
         rep.ok(rid, "_find_proto_cell: the reduced cell is periodic in (a, b) only")
     else:
         rep.violation(rid, "_find_proto_cell: periodicity of the reduced cell", f"set_pbc({lit}); required [True, True, False] (non-periodic vector last)", M.where(fq, pb[0] if pb else cc[0]))
+    # the number of spans reported for a reduced cell is 2 (it decides is_2d of the region, hence Material2D vs Surface)
+    rets = [r for r in fn.body if isinstance(r, ast.Return) and isinstance(r.value, ast.Tuple) and len(r.value.elts) == 4]
+    if not rets or not isinstance(rets[-1].value.elts[2], ast.Name):
+        raise AnalysisError("_find_proto_cell: final `return proto_cell, offset, <spans>, <periodic spans>` not recognised")
+    nvar = rets[-1].value.elts[2].id
+    branch = None
+    for t in ast.walk(fn):
+        if isinstance(t, ast.If) and any(c2 is pb[0] for s2 in t.body for c2 in ast.walk(s2)) if pb else False:
+            branch = t          # innermost If whose body holds the set_pbc([True, True, False]) of the reduction (walk order: outer first)
+    if branch is None:
+        raise AnalysisError("_find_proto_cell: branch of the 3D -> 2D reduction not found")
+    upd = [s2 for s2 in ast.walk(branch) if isinstance(s2, ast.Assign) and norm(s2.targets[0]) == nvar]
+    two = [s2 for s2 in upd if (isinstance(s2.value, ast.Constant) and s2.value.value == 2)
+           or (isinstance(s2.value, ast.Call) and isinstance(s2.value.func, ast.Name) and s2.value.func.id == "len")]
+    if two:
+        rep.ok(rid, f"_find_proto_cell: a reduced cell is reported with `{norm(two[0])}` spans")
+    else:
+        rep.violation(rid, "_find_proto_cell: number of spans of a reduced cell", f"`{nvar}` (returned as the number of spans) is not updated in the branch that reduces a "
+                      "layered 3D cell to two dimensions: the cell is periodic in (a, b) only but is reported with three spans, the region is built with is_2d=False and a "
+                      "monolayer is classified as Surface instead of Material2D", M.where(fq, branch))
     for c in mins:
         b = M.bind_args(GEO + ".get_minimized_cell", c)
         ax = b.get("axis")
